@@ -1,18 +1,30 @@
 #!/bin/sh
-# thorough tier: quick rules on linux/amd64 AND linux/386 (int width changes position arithmetic),
-# then the mutant corpus of the property replayed on scratch copies (liveness of every rule).
+# thorough tier for one property:
+#   1. the quick rules again under GOARCH=386 (int is 32 bit: matters to the position-arithmetic rules),
+#   2. for C13, the Go compiler's own list of bounds checks it could not eliminate (static) as a completeness
+#      cross-check of the may-panic enumerator,
+#   3. replay of the property's mutant corpus and the seeded changes on scratch copies (liveness of every rule),
+#   4. the rules on linux/amd64 with the A1 audit and the results of 1–3 recorded in the evidence.
+# Exit 1 + VIOLATION only for a violated obligation of /repo's tree (either architecture); exit 2 when the checker is
+# weak/undecided (a mutant escaped, an anchor is gone); never VIOLATION for a weakness of the checker itself.
 set -u
 cd "$(dirname "$0")"
 PROP="$1"; REPO="${2:-/repo}"
 export GOFLAGS=-mod=mod GOPROXY=off GOSUMDB=off GOTOOLCHAIN=local
 unset GOWORK
-bin/uxcheck -prop "$PROP" -tier thorough -repo "$REPO" -verif "$(pwd)" -goarch 386 -no-evidence > /tmp/uxcheck-386-$$.log 2>&1
+TMP=$(mktemp -d /tmp/uxthorough.XXXXXX)
+trap 'rm -rf "$TMP"' EXIT
+bin/uxcheck -prop "$PROP" -tier thorough -repo "$REPO" -verif "$(pwd)" -goarch 386 -no-evidence > "$TMP/386.log" 2>&1
 rc386=$?
-grep -E '^(  violated|UNDECIDED|KNOWN-FINDING)' /tmp/uxcheck-386-$$.log | sed 's/^/[386] /'
-V386=$(grep -c '^VIOLATION' /tmp/uxcheck-386-$$.log); rm -f /tmp/uxcheck-386-$$.log
-python3 mutants.py --prop "$PROP" --seeded --repo "$REPO" --json "evidence/mutants-$PROP.json" > /tmp/uxmut-$$.log 2>&1
+grep -E '^(  violated|UNDECIDED|KNOWN-FINDING)' "$TMP/386.log" | sed 's/^/[386] /'
+V386=$(grep -c '^VIOLATION' "$TMP/386.log")
+if [ "$PROP" = "C13" ]; then
+  (cd "$REPO" && go build -gcflags='github.com/ipfs/go-unixfsnode/...=-d=ssa/check_bce/debug=1' ./... 2> "$TMP/bce.txt" >/dev/null) || true
+  export VERIF_BCE_FILE="$TMP/bce.txt"
+fi
+python3 mutants.py --prop "$PROP" --seeded --repo "$REPO" --json "evidence/mutants-$PROP.json" > "$TMP/mut.log" 2>&1
 rcm=$?
-tail -n 3 /tmp/uxmut-$$.log; grep CHECKER-WEAK /tmp/uxmut-$$.log; rm -f /tmp/uxmut-$$.log
+tail -n 2 "$TMP/mut.log"; grep CHECKER-WEAK "$TMP/mut.log"
 VERIF_EXTRA_386_RC=$rc386 VERIF_EXTRA_MUT_RC=$rcm bin/uxcheck -prop "$PROP" -tier thorough -repo "$REPO" -verif "$(pwd)"
 rc=$?
 if [ $rc -eq 0 ] && [ $rc386 -eq 1 ]; then
